@@ -680,11 +680,11 @@ pub fn program_set<const A: bool>(set: &str) -> Vec<Program<MpscFam<A>>> {
         for cap in [Some(1), Some(2), None] {
             let rich = cap == Some(1);
             if thorough {
-                gen_shape(&Shape { cap, main_receives: true, rx_style: Style::Async, tx_style: Style::Async, senders: 1, ks: 3, kr: 3, max_size: 5, rich: true }, &mut out);
-                gen_shape(&Shape { cap, main_receives: true, rx_style: Style::Async, tx_style: Style::Async, senders: 2, ks: 2, kr: 3, max_size: if cap == Some(2) { 4 } else { 5 }, rich: false }, &mut out);
-                gen_shape(&Shape { cap, main_receives: false, rx_style: Style::Async, tx_style: Style::Async, senders: 1, ks: 3, kr: 3, max_size: 5, rich: true }, &mut out);
+                gen_shape(&Shape { cap, main_receives: true, rx_style: Style::Async, tx_style: Style::Async, senders: 1, ks: 3, kr: 3, max_size: 6, rich: true }, &mut out);
+                gen_shape(&Shape { cap, main_receives: true, rx_style: Style::Async, tx_style: Style::Async, senders: 2, ks: 2, kr: 3, max_size: 5, rich: false }, &mut out);
+                gen_shape(&Shape { cap, main_receives: false, rx_style: Style::Async, tx_style: Style::Async, senders: 1, ks: 3, kr: 3, max_size: 6, rich: true }, &mut out);
                 gen_shape(&Shape { cap, main_receives: false, rx_style: Style::Blocking, tx_style: Style::Blocking, senders: 2, ks: 2, kr: 2, max_size: 4, rich: false }, &mut out);
-                gen_shape(&Shape { cap, main_receives: false, rx_style: Style::Blocking, tx_style: Style::Async, senders: 1, ks: 3, kr: 3, max_size: 5, rich }, &mut out);
+                gen_shape(&Shape { cap, main_receives: false, rx_style: Style::Blocking, tx_style: Style::Async, senders: 1, ks: 3, kr: 3, max_size: 6, rich }, &mut out);
                 gen_shape(&Shape { cap, main_receives: true, rx_style: Style::Async, tx_style: Style::Blocking, senders: 2, ks: 2, kr: 2, max_size: 4, rich: false }, &mut out);
             } else {
                 // three-thread programs: 3 operations, 4 only for capacity 1 with main receiving
